@@ -170,6 +170,9 @@ def execute(ctx, r, files, blocks, fault, desc):
     env = dict(TERM)
     env.update(ai.env(key=key_val, model=model))
     fkind = fault[0] if fault else None
+    if r.random() < 0.7:
+        env["OPENAI_API_KEY"] = "sk-foreign-key-not-for-blockwatch"      # must never be picked up instead of BLOCKWATCH_AI_API_KEY
+        env["OPENAI_BASE_URL"] = "http://127.0.0.1:9/none"
     if fkind == "no-key":
         del env["BLOCKWATCH_AI_API_KEY"]
     elif fkind == "empty-key":
